@@ -112,6 +112,29 @@ def check(pid, tier, seed, jobs):
     else:
         for i in range(len(fams)):
             results[i] = _job(i)[1]
+    # second pass: families with an undecided obligation (solver time-out, e.g.
+    # on a loaded machine) are run again, few at a time, with a six-fold
+    # solver budget; the second result replaces the first
+    again = [i for i, r in enumerate(results)
+             if not r.get('crash') and any(
+                 rec['status'] in ('undecided', 'canary-unknown') for rec in r.get('records', []))]
+    if again:
+        from ovc import engine as _eng
+        _eng.QUERY_TIMEOUT_MS *= 6
+        _eng.DECIDE_TIMEOUT_MS *= 6
+        retried = list()
+        if jobs > 1 and len(again) > 1:
+            ctx = mp.get_context('fork')
+            with ctx.Pool(min(4, len(again))) as pool:
+                for i, res in pool.imap_unordered(_job, again):
+                    res['retried_with_longer_budget'] = True
+                    results[i] = res
+                    retried.append(i)
+        else:
+            for i in again:
+                results[i] = _job(i)[1]
+                results[i]['retried_with_longer_budget'] = True
+        print(f'ovc: {len(again)} famil{"y" if len(again) == 1 else "ies"} with undecided obligations run again with a 6x solver budget')
     return report(pid, tier, seed, mod, results, time.time() - t0)
 
 
